@@ -163,10 +163,11 @@ class StreamWorld(World):
               "reconnect_within_linger", "reconnect_after_linger", "terminated_error", "client_local_closed",
               "streaming_disabled", "two_proxies", "concurrent_streams", "multiplex", "thread", "housekeeping_observed",
               "temp_proxy_close", "client_local_stop", "preempted", "raced",
-              "connection_dropped", "continued_after_drop", "concurrent_ops", "client_correlation_id", "disconnect_during_table_change", "chatter"]
+              "connection_dropped", "continued_after_drop", "concurrent_ops", "client_correlation_id", "disconnect_during_table_change", "chatter", "combined", "combined_slave_idle_expiry"]
     # also counted, but too schedule-dependent to demand: "fetch_before_old_disconnect", "expired_but_still_answers"
     RULE = ("plan = (server type, serializer, ITER_STREAMING on/off, ITER_STREAM_LIFETIME in {0,5,20}, ITER_STREAM_LINGER in "
-            "{0,3,10}, 1-2 proxies, 1-4 stream sources (generator/list, 0-8 items, optional ValueError at position k), 6-26 ops "
+            "{0,3,10}, 18% of the multiplex plans 'combined': the streams live on a second daemon served by the first one's loop (Daemon.combine), "
+            "violation keys then end in ':combined', 1-2 proxies, 1-4 stream sources (generator/list, 0-8 items, optional ValueError at position k), 6-26 ops "
             "open/next/close/release/reconnect/drop/advance{0.5..30 s} with optional settle after each (drop = the network resets "
             "the proxy's connection while nothing is in flight; 15% of the thread-server plans also set COMMTIMEOUT=3 s so that the "
             "server closes idle connections itself; par = {release|drop of one proxy} concurrently with {open|next|close on a stream "
@@ -372,10 +373,16 @@ class StreamWorld(World):
             tail.append({"op": rng.choice(["close", "close", "next"]), "s": r})
             tail.append({"op": "advance", "dt": 4})
             ops = ops + tail
-        return {"servertype": servertype, "serializer": rng.choice(SERIALIZERS), "streaming": streaming,
+        plan = {"servertype": servertype, "serializer": rng.choice(SERIALIZERS), "streaming": streaming,
                 "lifetime": lifetime, "linger": linger, "nproxies": nprox, "streams": streams, "ops": ops,
                 "commtimeout": commtimeout, "corr": corr, "chatter": chatter, "lines": lines, "p_line": p_line, "p_block": p_block,
                 "net": {"shuffle_select": rng.random() < 0.5}}
+        if servertype == "multiplex" and rng.random() < 0.18:
+            # the stream sources live on a SECOND daemon that is combined into the first one's multiplex loop (Daemon.combine);
+            # the background client, if any, talks to the master (master busy, slave idle) or to the slave
+            plan["combined"] = True
+            plan["chatter_on"] = rng.choice(["master", "master", "slave"])
+        return plan
 
     def line_codes(self, plan):
         return _codes() if plan.get("lines") else ()
@@ -414,6 +421,12 @@ class StreamWorld(World):
         ctx.probe(plan["servertype"])
         run = _Run.cur = {"sched": sched, "obs": []}
         its = {}
+        if plan.get("combined"):
+            plain = ctx.violate     # signatures of the combined-daemon variant are told apart by their key
+
+            def violate(kind, key="", msg=""):
+                plain(kind, (str(key) + ":combined") if key else "combined", msg)
+            ctx.violate = violate
         try:
             self._drive(ctx, run, its)
         finally:
@@ -427,14 +440,24 @@ class StreamWorld(World):
         nprox = plan["nproxies"]
         life, linger = float(plan["lifetime"]), float(plan["linger"])
         net = ctx.net
-        srv = Server(ctx, plan["servertype"], daemon_cls=ObsDaemon, commtimeout=float(plan.get("commtimeout") or 0.0),
-                     polltimeout=POLL)
-        daemon = srv.daemon
-        uri = srv.register(Src(), "src")
+        combined = bool(plan.get("combined")) and plan["servertype"] == "multiplex"
+        if combined:
+            # master: a plain Daemon whose requestLoop runs; slave: the observed daemon that owns the streams, served by the
+            # master's loop (Daemon.combine).  Everything the model describes (table, housekeeping passes, disconnects) is the slave's.
+            srv = Server(ctx, "multiplex", daemon_cls=None, polltimeout=POLL)
+            daemon = ObsDaemon(host="127.0.0.1", port=0)
+            srv.daemon.combine(daemon)
+            uri = daemon.register(Src(), "src")
+            ctx.probe("combined")
+        else:
+            srv = Server(ctx, plan["servertype"], daemon_cls=ObsDaemon, commtimeout=float(plan.get("commtimeout") or 0.0),
+                         polltimeout=POLL)
+            daemon = srv.daemon
+            uri = srv.register(Src(), "src")
         t_start = sched.now
         chat = {"stop": False, "calls": 0, "errors": 0}
         if plan.get("chatter"):
-            ping_uri = srv.register(Ping(), "ping")
+            ping_uri = (daemon if combined and plan.get("chatter_on") == "slave" else srv.daemon).register(Ping(), "ping")
 
             def chatter():
                 # unrelated background traffic: a request every POLL/4 s for the whole run (not part of the model)
@@ -736,7 +759,7 @@ class StreamWorld(World):
         def bad(sl, kind, key, msg):
             sl["broken"] = True
             ctx.violate(kind, key, "stream %d (%s, %d items then %s; lifetime=%g linger=%g, %s server): %s"
-                        % (sl["i"], streams[sl["i"]]["kind"], sl["nitems"], sl["end"], life, linger, plan["servertype"], msg))
+                        % (sl["i"], streams[sl["i"]]["kind"], sl["nitems"], sl["end"], life, linger, plan["servertype"] + (" (streams on a daemon combined into another daemon's loop)" if plan.get("combined") else ""), msg))
 
         def set_gone(sl, reason):
             sl["S"] = {GONE}
@@ -991,6 +1014,8 @@ class StreamWorld(World):
                         ns.add(GONE)
                         if sl["reason"] is None:
                             sl["reason"] = why
+                        if plan.get("combined"):
+                            ctx.probe("combined_slave_idle_expiry")
                     else:
                         ns.add(a)
                 sl["S"] = ns
@@ -1084,6 +1109,8 @@ class StreamWorld(World):
                                 if sl["reason"] is None:
                                     sl["reason"] = must[0]
                                     ctx.probe("lifetime_expired" if must[0].startswith("lifetime") else "linger_expired")
+                                    if plan.get("combined"):
+                                        ctx.probe("combined_slave_idle_expiry")
                                     flags["interesting"] += 1
                             else:
                                 ns.add(a)
